@@ -34,6 +34,10 @@ PROPS = {
             "rule": "exact tier: one case per TLC state of CG.tla (instance, number of updates) replayed on the real solver; large tier: one recorded run per seeded random system validated as a trace; non-trivial = at least one update performed",
             "assumptions": ["exact tier: all symmetric integer matrices with entries -1..2 of size 1 and 2 (PD and indefinite), b, x0 in {-1,0,2}^n, diagonal preconditioners, max_iter 1..3 (quick) / 1..4 (thorough)", "large tier thresholds: 1e-6 (A-norm increase, residual gap), 1e-5 (Krylov gap, exactness at n) relative, cond <= 1e3"],
             "trusted": TLC_BASE + ["Rat.tla arithmetic", "numpy.linalg.solve / lstsq as reference for the large tier"]},
+    "C14": {"level": "model_checking", "engines": [("lls", "lls", "run")],
+            "rule": "one case per final state of LLS.tla (solver x lamda x z x proxg x G, 288 option records) x option variants (step sizes / preconditioner / rho given or defaulted, x0 given or not) x real/complex instance; all non-trivial",
+            "assumptions": ["instances: A 3x2, G 2x2 dense or finite difference, g in {none, l1, l2^2, box}; optimum by enumeration of the smooth pieces (exact for these instances)", "iteration budgets CG 30, GM 4000, PDHG 6000, ADMM 400x10; tolerance 2e-3 relative on the documented objective"],
+            "trusted": TLC_BASE + ["numpy.linalg.solve / lstsq for the piecewise KKT reference"]},
     "C09": {
         "level": "model_checking",
         "engines": [("index_maps", "index_maps", "run")],
@@ -48,6 +52,8 @@ PROPS = {
 HOOK_COMMITS = ["609775d"]
 
 ENGINES = [
+    {"name": "lls", "path": "harness/engines/lls.py + spec/LLS.tla", "serves_properties": ["C14"],
+     "kind_free_text": "TLC over the option cross product of LinearLeastSquares._get_alg (assembled vs documented problem) + replay of every configuration against an independently computed optimum"},
     {"name": "cg", "path": "harness/engines/cg.py + spec/CG.tla, spec/CGTrace.tla", "serves_properties": ["C12", "C15"],
      "kind_free_text": "TLC over exact rational CG on all small systems + replay; trace validation of larger random runs"},
     {"name": "prox", "path": "harness/engines/prox.py + spec/Prox.tla, Rat.tla", "serves_properties": ["C11", "C02"],
@@ -96,7 +102,7 @@ MANIFEST_TEXT = {
 }
 
 NOT_APPLICABLE = {p: "check not built yet in this round (planned, see DESIGN.md section 5)" for p in
-                  ["C05", "C06", "C07", "C08", "C10", "C13", "C14", "C16", "C17", "C19"]}
+                  ["C05", "C06", "C07", "C08", "C10", "C13", "C16", "C17", "C19"]}
 
 MANIFEST_TEXT["C18"] = {
     "text": "PoissonSearch.tla models the slope bisection on a float lattice with an arbitrary (non-monotone) acceleration function; TLC checks OkIsWithinTol and the liveness property Terminates (the loop without the collapse test is kept as a negative control that must fail). poisson() is run on the real code with _poisson wrapped under a watchdog; every call (probes as slope ranks + integer facts about the mask, RNG state crc, reproducibility memo) is validated by TLC against PoissonTrace.tla.",
@@ -115,3 +121,9 @@ MANIFEST_TEXT["C12"] = {
     "design_ref": "DESIGN.md section 5 C12",
     "note": "Trusted: TLC, Rat.tla, numpy reference solves for the large tier (thresholds 1e-6/1e-5 relative with cond <= 1e3).",
     "technique": "TLA+ exact-rational algorithm vs definition layers (TLC) + replay + trace validation"}
+
+MANIFEST_TEXT["C14"] = {
+    "text": "LLS.tla follows _get_alg step by step (dispatch, validation, per-solver assembly incl. the two sub-steps of the primal-dual branch) and records which objective terms the branch really hands to its algorithm; TLC checks AssembledIsDocumented and RejectedIffInexpressible over the whole option cross product (the pinned G branch is a negative control that must fail). Every final state is instantiated on small real/complex instances with option variants; app.run() must raise where the spec rejects, and otherwise return a point whose documented objective is within 2e-3 of the optimum computed independently by enumerating the smooth pieces of the objective.",
+    "design_ref": "DESIGN.md section 5 C14",
+    "note": "Trusted: TLC, the harness's piecewise KKT reference (numpy). Iteration budgets calibrated once on the repaired tree.",
+    "technique": "TLA+ dispatch/assembly model (TLC, with negative control) + spec-to-code replay against an independent optimum"}
